@@ -82,6 +82,11 @@ impl InlineCache {
         let mut entries = self.entries.borrow_mut();
 
         let prototype_shape = if slot.attributes.contains(SlotAttributes::PROTOTYPE) {
+            // A unique shape keeps its identity when a property is added to the object: an own
+            // property that shadows the cached one would go unnoticed.
+            if !shape.is_shared() {
+                return;
+            }
             let Some(prototype) = shape.prototype() else {
                 return;
             };
